@@ -4310,18 +4310,16 @@ def check_onepoint(goal, ctx):
             for v, t in one_val_var.items():
                 found = False
                 for i, conj in enumerate(conjs):
-                    if conj.is_equals() and conj.lhs == v:
+                    if conj.is_equals() and conj.lhs == v and conj.rhs == t:
                         found = True
                         break
-                    if conj.is_equals() and conj.rhs == v:
+                    if conj.is_equals() and conj.rhs == v and conj.lhs == t:
                         found = True
                         break
-                if concl.is_not() and concl.arg.is_equals() and concl.arg.lhs == v:
+                if concl.is_not() and concl.arg.is_equals() and concl.arg.lhs == v and concl.arg.rhs == t:
                     found = True
-                    break
-                if concl.is_not() and concl.arg.is_equals() and concl.arg.rhs == v:
+                if concl.is_not() and concl.arg.is_equals() and concl.arg.rhs == v and concl.arg.lhs == t:
                     found = True
-                    break
                 if not found:
                     raise VeriTException("onepoint", "forall - equation not found")
             return "FORALL-DISJ", l_bd, one_val_var, remain_var
